@@ -6,7 +6,7 @@ import z3
 from . import smt
 from .values import (
     Unsupported, Sym, Ref, TupleV, FuncV, LambdaV, BuiltinV, ClassV, ModuleV, SuperV, Raised, ExcSym,
-    PyList, SeqV, PyDict, Obj, ArrState, DataView, Idx, StackState, Slice, is_concrete, num_term, isint_of,
+    PyList, SeqV, PyDict, Obj, ArrState, DataView, MaskView, Idx, StackState, Slice, is_concrete, num_term, isint_of,
     is_num, zand, zor, znot,
 )
 
@@ -178,6 +178,9 @@ class BuiltinMixin(object):
             yield st, st.alloc(PyList(items=[]))
             return
         (v,) = args
+        if isinstance(v, Sym) and v.kind == "shape":
+            yield st, Sym("shapelist", v.t)
+            return
         for st1, seq in self.as_sequence(st, v):
             if isinstance(seq, Raised):
                 yield st1, seq
@@ -236,9 +239,31 @@ class BuiltinMixin(object):
                 seq = self.list_seq(PyList(items=seq)) if seq else SeqV(z3.IntVal(0), lambda k: None)
             # len(set(xs)) == len(xs) iff the elements are pairwise distinct: DISTINCT(xs)
             dl = smt.fresh("setlen", z3.IntSort())
-            st1.assume(z3.And(dl >= 0, dl <= seq.n, z3.Implies(seq.n >= 1, dl >= 1)))
-            st1.ghost.setdefault("setlens", []).append((dl, seq))
+            dist = self.distinct_pred(seq)
+            st1.assume(z3.And(dl >= 0, dl <= seq.n, z3.Implies(seq.n >= 1, dl >= 1), (dl == seq.n) == dist))
             yield st1, st1.alloc(Obj(ClassV("SetOf"), {"len": Sym("num", z3.ToReal(dl), True), "seq": seq, "dl": dl}))
+
+    def seq_key(self, seq):
+        """structural identity of a numeric (or pair) sequence: its generic element and its length"""
+        k0 = z3.Int("K!generic")
+        e = seq.get(k0)
+
+        def sx(v):
+            if isinstance(v, TupleV):
+                return tuple(sx(i) for i in v.items)
+            if is_num(v):
+                return z3.simplify(num_term(v)).sexpr()
+            raise Unsupported("sequence key of %r" % (v,))
+
+        return (sx(e), z3.simplify(seq.n).sexpr())
+
+    def distinct_pred(self, seq):
+        """DIST(xs): the elements of xs are pairwise distinct (uninterpreted; facts via sorted())"""
+        reg = self.__dict__.setdefault("_distinct", {})
+        key = self.seq_key(seq)
+        if key not in reg:
+            reg[key] = smt.fresh("distinct", z3.BoolSort())
+        return reg[key]
 
     def bi_sum(self, st, args, kw):
         node = kw.get("__node__")
@@ -292,15 +317,11 @@ class BuiltinMixin(object):
 
     def seq_numsum(self, st, seq):
         """Σ of a numeric sequence as an uninterpreted spec function of the sequence (memoised per SeqV)."""
-        key = id(seq)
-        cached = seq.meta.get("numsum")
-        if cached is not None:
-            return cached
-        t = smt.fresh("seqsum", z3.RealSort())
-        allint = smt.fresh("seqsum_isint", z3.BoolSort())
-        v = Sym("num", t, allint)
-        seq.meta["numsum"] = v
-        return v
+        reg = self.__dict__.setdefault("_numsum", {})
+        key = self.seq_key(seq)
+        if key not in reg:
+            reg[key] = Sym("num", smt.fresh("seqsum", z3.RealSort()), smt.fresh("seqsum_isint", z3.BoolSort()))
+        return reg[key]
 
     def bi_functools_reduce(self, st, args, kw):
         node = kw.get("__node__")
@@ -379,24 +400,42 @@ class BuiltinMixin(object):
 
     def sorted_seq(self, st, seq):
         """sorted() of a sequence of numbers or (number, number) pairs: an ordered permutation (assumed)."""
-        cached = seq.meta.get("sorted")
-        if cached is not None:
-            yield st, st.alloc(PyList(seq=cached))
-            return
+        yield st, st.alloc(PyList(seq=self.sorted_pairs(seq)))
+
+    def sorted_pairs(self, seq):
+        reg = self.__dict__.setdefault("_sorted", {})
         probe = seq.get(smt.fresh("k", z3.IntSort()))
-        if isinstance(probe, TupleV) and len(probe.items) == 2 and all(is_num(x) for x in probe.items):
-            P = smt.fresh_fun("sorted_p", z3.IntSort(), z3.RealSort())
-            Q = smt.fresh_fun("sorted_q", z3.IntSort(), z3.RealSort())
-            QI = smt.fresh_fun("sorted_qint", z3.IntSort(), z3.BoolSort())
-            PI = smt.fresh_fun("sorted_pint", z3.IntSort(), z3.BoolSort())
-            SIG = smt.fresh_fun("sorted_perm", z3.IntSort(), z3.IntSort())
-            new = SeqV(seq.n, lambda k: TupleV([Sym("num", P(k), PI(k)), Sym("num", Q(k), QI(k))]), tag="sorted",
-                       meta={"P": P, "Q": Q, "SIG": SIG, "src": seq})
-            seq.meta["sorted"] = new
-            st.ghost.setdefault("sorted", []).append(new)
-            yield st, st.alloc(PyList(seq=new))
-            return
-        raise Unsupported("sorted() of this sequence")
+        if not (isinstance(probe, TupleV) and len(probe.items) == 2 and all(is_num(x) for x in probe.items)):
+            raise Unsupported("sorted() of this sequence")
+        key = self.seq_key(seq)
+        if key in reg:
+            return reg[key]
+        P = smt.fresh_fun("sorted_p", z3.IntSort(), z3.RealSort())
+        Q = smt.fresh_fun("sorted_q", z3.IntSort(), z3.RealSort())
+        QI = smt.fresh_fun("sorted_qint", z3.IntSort(), z3.BoolSort())
+        PI = smt.fresh_fun("sorted_pint", z3.IntSort(), z3.BoolSort())
+        SIG = smt.fresh_fun("sorted_perm", z3.IntSort(), z3.IntSort())
+        if "zipped" in seq.meta:
+            firsts = seq.meta["zipped"][0]
+        else:
+            firsts = SeqV(seq.n, lambda k, seq=seq: seq.get(k).items[0])
+        dist = self.distinct_pred(firsts)
+        new = SeqV(seq.n, lambda k: TupleV([Sym("num", P(k), PI(k)), Sym("num", Q(k), QI(k))]), tag="sorted",
+                   meta={"P": P, "Q": Q, "SIG": SIG, "src": seq, "dist": dist})
+        reg[key] = new
+        return new
+
+    def sorted_facts(self, st):
+        """assumed contract of sorted() on pairs with distinct first components: an ordered permutation"""
+        out = []
+        for new in self.__dict__.get("_sorted", {}).values():
+            P, Q, SIG, src, dist, n = new.meta["P"], new.meta["Q"], new.meta["SIG"], new.meta["src"], new.meta["dist"], new.n
+            for k in st.all_kterms():
+                out.append(z3.Implies(z3.And(k >= 0, k < n - 1), z3.And(P(k) <= P(k + 1), z3.Implies(dist, P(k) < P(k + 1)))))
+                out.append(z3.Implies(z3.And(k >= 1, k < n), z3.And(P(k - 1) <= P(k), z3.Implies(dist, P(k - 1) < P(k)))))
+                e = src.get(SIG(k))
+                out.append(z3.Implies(z3.And(k >= 0, k < n), z3.And(SIG(k) >= 0, SIG(k) < n, P(k) == num_term(e.items[0]), Q(k) == num_term(e.items[1]))))
+        return out
 
     # ------------------------------------------------------------------ type tests
     def bi_isinstance(self, st, args, kw):
@@ -757,7 +796,7 @@ class BuiltinMixin(object):
         yield st, self._unspec_str(st, "traceback")
 
     def bi_packaging_version_parse(self, st, args, kw):
-        yield st, ("version", args[0])
+        yield st, Sym("version", None)
 
     def bi_new_Exception(self, st, args, kw):
         yield st, self.make_exc(st, "Exception", {"args": TupleV(args)})
